@@ -12,9 +12,24 @@
   differ only in SR compare equal and forge differently.  `entEq_forge_partial` therefore carries
   the hypothesis "same channel sample rate", and `entEq_not_forge_counterexample` is the
   machine-checked witness that the hypothesis cannot be dropped.
+
+  Second part (whole sequences): `seq_eq_refl/symm`, `seq_copy_eq`; the public mutators
+  (`setSegmentMarker_op_neq`, `changeArg_op_neq`, `addFlags_neq`, `setSequencing_neq`,
+  `setChannelAmplitude_neq` …) make an object unequal to what it was; `el_eq_desc` / `seq_eq_desc`:
+  equal objects have equal descriptions as Python compares dicts (`J.DictEq`);
+  `seq_eq_forge_partial` / `seq_eq_forge_anyorder_partial`: equal sequences forge alike — under
+  equal channel sample rates (D23, `seq_eq_not_forge_counterexample`) and equal channel insertion
+  order.  The order hypothesis is a second finding: `dict.__eq__` ignores insertion order, but
+  `getArrays` lists channels in it (`el_eq_order_counterexample`) and `validateDurations` measures
+  every duration against the first channel's (`numpy.allclose(durations, durations[0], …)`), so of
+  two `==` elements one can validate and the other raise (`el_eq_validate_order_counterexample`,
+  reproduced against the real library).
 -/
 import BB.Proofs.Copy
 import BB.Proofs.DictEq
+import BB.Proofs.G6Eq
+import BB.Proofs.G6Forge
+import BB.Proofs.G6Desc
 import BB.Model.Describe
 
 namespace BB.C20
@@ -412,10 +427,966 @@ theorem entry_eq_refl (x : Entry) (h : match x with
     refine (Dict.eqBy_iff _ h1).mpr ⟨rfl, fun k v hk => ⟨v, hk, ?_⟩⟩
     exact el_eq_refl v (h4 v (List.mem_map.mpr ⟨(k, v), Dict.mem_of_get?_eq_some k v hk, rfl⟩))
 
+/-! ## second part: equality of whole sequences, public mutators, descriptions, forging -/
+
+/-! ### reflexivity, symmetry, copies (sequences and their entries) -/
+
+/-- every dictionary inside a stored entry holds each key once (what `dict` assignment maintains) -/
+def EntryWF : Entry → Prop
+  | .el e => Dict.WF e.chans
+  | .sub s => Dict.WF s.data ∧ Dict.WF s.awgspecs ∧ Dict.WF s.sequencing ∧ ∀ e ∈ Dict.vals s.data, Dict.WF e.chans
+
+/-- every dictionary of a sequence — element store, AWG settings, sequencing, and the stores of
+    the entries — holds each key once -/
+structure SeqWF (s : Sequence) : Prop where
+  data : Dict.WF s.data
+  specs : Dict.WF s.awgspecs
+  sequencing : Dict.WF s.sequencing
+  entries : ∀ en ∈ Dict.vals s.data, EntryWF en
+
+/-- helper (C20 "equality is reflexive"): a well-formed stored entry equals itself -/
+theorem entry_eq_refl_wf (x : Entry) (h : EntryWF x) : x.beq x = true := by
+  cases x with
+  | el e => exact entry_eq_refl (.el e) h
+  | sub s => exact entry_eq_refl (.sub s) h
+
+/-- helper: `==` on a type with decidable equality is symmetric -/
+theorem beq_fn_symm {α : Type} [DecidableEq α] : ∀ x y : α, (x == y) = true → (y == x) = true := by
+  intro x y h
+  simp only [beq_iff_eq] at *
+  exact h.symm
+
+/-- **symmetry of `==` on stored entries** (elements and subsequences) -/
+theorem entry_eq_symm (x y : Entry) (hx : EntryWF x) (hy : EntryWF y) (h : x.beq y = true) : y.beq x = true := by
+  cases x with
+  | el a => cases y with
+    | el b => exact el_eq_symm a b hx hy h
+    | sub _ => simp [Entry.beq] at h
+  | sub a => cases y with
+    | el _ => simp [Entry.beq] at h
+    | sub b =>
+      obtain ⟨a1, a2, a3, a4⟩ := hx
+      obtain ⟨b1, b2, b3, b4⟩ := hy
+      simp only [Entry.beq, Bool.and_eq_true] at h ⊢
+      obtain ⟨⟨h1, h2⟩, h3⟩ := h
+      refine ⟨⟨?_, Dict.eqBy_symm _ beq_fn_symm a2 b2 h2⟩, Dict.eqBy_symm _ beq_fn_symm a3 b3 h3⟩
+      exact Dict.eqBy_symm_mem _ a1 b1 (fun x hx y hy hxy => el_eq_symm x y (a4 x hx) (b4 y hy) hxy) h1
+
+/-- **`Sequence.__eq__` is reflexive** -/
+theorem seq_eq_refl (s : Sequence) (h : SeqWF s) : s.beq s = true := by
+  rw [seq_eq_iff]
+  exact ⟨Dict.eqBy_refl_mem _ h.data (fun x hx => entry_eq_refl_wf x (h.entries x hx)),
+    Dict.eqBy_refl _ (by simp) h.specs, Dict.eqBy_refl _ (by simp) h.sequencing⟩
+
+/-- **`Sequence.__eq__` is symmetric** -/
+theorem seq_eq_symm (a b : Sequence) (ha : SeqWF a) (hb : SeqWF b) (h : a.beq b = true) : b.beq a = true := by
+  rw [seq_eq_iff] at h ⊢
+  obtain ⟨h1, h2, h3⟩ := h
+  exact ⟨Dict.eqBy_symm_mem _ ha.data hb.data
+      (fun x hx y hy hxy => entry_eq_symm x y (ha.entries x hx) (hb.entries y hy) hxy) h1,
+    Dict.eqBy_symm _ beq_fn_symm ha.specs hb.specs h2,
+    Dict.eqBy_symm _ beq_fn_symm ha.sequencing hb.sequencing h3⟩
+
+/-- **a copy compares equal to its original** (sequences; both ways round) -/
+theorem seq_copy_eq (s : Sequence) (h : SeqWF s) : s.copy.beq s = true ∧ s.beq s.copy = true := by
+  have := seq_eq_refl s h
+  exact ⟨this, this⟩
+
+/-- a copy of an element compares equal to its original -/
+theorem el_copy_eq (e : Element) (h : Dict.WF e.chans) : e.copy.beq e = true ∧ e.beq e.copy = true :=
+  ⟨el_eq_refl e h, el_eq_refl e h⟩
+
+/-- the public builders keep a sequence well-formed -/
+theorem seqwf_empty : SeqWF ({} : Sequence) :=
+  ⟨Dict.wf_nil, Dict.wf_nil, Dict.wf_nil, by intro en h; simp [Dict.vals] at h⟩
+
+/-- helper: the values after `d[k] = v` are `v` and old values -/
+theorem mem_vals_upsert {κ α : Type} [DecidableEq κ] (d : Dict κ α) (k : κ) (v x : α)
+    (h : x ∈ Dict.vals (Dict.upsert d k v)) : x = v ∨ x ∈ Dict.vals d := by
+  induction d with
+  | nil => simp [Dict.upsert, Dict.vals] at h; exact Or.inl h
+  | cons p rest ih =>
+    obtain ⟨k', v'⟩ := p
+    unfold Dict.upsert at h
+    split at h
+    · simp only [Dict.vals, List.map_cons, List.mem_cons] at h ⊢
+      rcases h with h | h
+      · exact Or.inl h
+      · exact Or.inr (Or.inr h)
+    · simp only [Dict.vals, List.map_cons, List.mem_cons] at h ⊢ ih
+      rcases h with h | h
+      · exact Or.inr (Or.inl h)
+      · rcases ih h with h | h
+        · exact Or.inl h
+        · exact Or.inr (Or.inr h)
+
+/-- helper (well-formedness is what the public builders maintain): setting an AWG setting -/
+theorem seqwf_setSpec (s : Sequence) (h : SeqWF s) (k : String) (v : Spec) : SeqWF (s.setSpec k v) :=
+  ⟨h.data, Dict.wf_upsert h.specs _ _, h.sequencing, h.entries⟩
+
+/-- helper (well-formedness is what the public builders maintain): a `setSequencing…` call -/
+theorem seqwf_setSequencing (s : Sequence) (h : SeqWF s) (pos : Int) (f : SeqSet → SeqSet) :
+    SeqWF (s.setSequencing pos f).st := by
+  unfold SeqCore.setSequencing
+  split
+  · exact h
+  · exact ⟨h.data, h.specs, Dict.wf_upsert h.sequencing _ _, h.entries⟩
+
+/-- helper (well-formedness is what the public builders maintain): `addElement` of a well-formed element -/
+theorem seqwf_addElement (s : Sequence) (h : SeqWF s) (pos : Int) (e : Element) (he : Dict.WF e.chans) :
+    SeqWF (s.addElement pos e).st := by
+  unfold Sequence.addElement
+  split
+  · exact h
+  · refine ⟨Dict.wf_upsert h.data _ _, h.specs, Dict.wf_upsert h.sequencing _ _, ?_⟩
+    intro en hen
+    rcases mem_vals_upsert _ _ _ _ hen with rfl | hen
+    · exact he
+    · exact h.entries en hen
+
+/-! ### single public mutations of a blueprint (lifted from the `modifySeg` helper) -/
+
+/-- an accepted `setSegmentMarker(name, specs, markerID)` that stores a marker different from the
+    one the addressed segment had makes the blueprint unequal to what it was -/
+theorem setSegmentMarker_op_neq (b : BP) (name : String) (m : Mark) (mid : Int) (i : Nat) (s : Seg)
+    (hacc : (b.setSegmentMarker name m mid).err = none)
+    (hi : b.indexOf? name = some i) (hs : b.segs[i]? = some s)
+    (hm : (mid = 1 ∧ s.m1 ≠ m) ∨ (mid ≠ 1 ∧ s.m2 ≠ m)) :
+    (b.setSegmentMarker name m mid).st.beq b = false := by
+  obtain ⟨hlt, hsi⟩ := List.getElem?_eq_some_iff.mp hs
+  unfold setSegmentMarker at *
+  split at hacc
+  · simp at hacc
+  · rename_i hmid
+    simp only [hmid, if_false, hi]
+    exact setSegmentMarker_neq b i mid m hlt (by rw [hsi]; exact hm)
+
+/-- an accepted `removeSegmentMarker(name, markerID)` that removes a marker that was set -/
+theorem removeSegmentMarker_op_neq (b : BP) (name : String) (mid : Int) (i : Nat) (s : Seg)
+    (hacc : (b.removeSegmentMarker name mid).err = none)
+    (hi : b.indexOf? name = some i) (hs : b.segs[i]? = some s)
+    (hm : (mid = 1 ∧ s.m1 ≠ (0, 0)) ∨ (mid ≠ 1 ∧ s.m2 ≠ (0, 0))) :
+    (b.removeSegmentMarker name mid).st.beq b = false := by
+  obtain ⟨hlt, hsi⟩ := List.getElem?_eq_some_iff.mp hs
+  unfold removeSegmentMarker at *
+  split at hacc
+  · simp at hacc
+  · rename_i hmid
+    simp only [hmid, if_false, hi]
+    exact setSegmentMarker_neq b i mid (0, 0) hlt (by rw [hsi]; exact hm)
+
+/-- what an accepted step of `changeArg`'s loop does -/
+theorem changeArgOne_facts (b b' : BP) (nm : String) (arg value : Val)
+    (h : b.changeArgOne nm arg value = ⟨b', none⟩) :
+    ∃ i seg k, b.indexOf? nm = some i ∧ b.segs[i]? = some seg ∧ argIndex seg arg = .ok k ∧
+      k < seg.args.length ∧ b' = b.modifySeg i (setArg k value) := by
+  unfold changeArgOne at h
+  split at h
+  · cases h
+  · rename_i i hi
+    split at h
+    · cases h
+    · rename_i seg hseg
+      split at h
+      · cases h
+      · split at h
+        · cases h
+        · rename_i k hk
+          split at h
+          · rename_i hlt
+            simp only [Res.mk.injEq, and_true] at h
+            exact ⟨i, seg, k, hi, hseg, hk, hlt, h.symm⟩
+          · cases h
+
+/-- helper for `changeArg_op_neq`: the argument position depends on the pulse function only -/
+theorem argIndex_congr (s t : Seg) (h : s.fn = t.fn) (arg : Val) : argIndex s arg = argIndex t arg := by
+  unfold argIndex
+  rw [h]
+
+/-- helper for `changeArg_op_neq`: storing an argument changes no name -/
+theorem modifySeg_setArg_names (b : BP) (i k : Nat) (v : Val) : (b.modifySeg i (setArg k v)).names = b.names := by
+  unfold modifySeg names
+  exact modify_names _ _ _ (fun _ => rfl)
+
+/-- helper for `changeArg_op_neq`: … so name look-ups are unaffected -/
+theorem modifySeg_setArg_indexOf (b : BP) (i k : Nat) (v : Val) (nm : String) :
+    (b.modifySeg i (setArg k v)).indexOf? nm = b.indexOf? nm := by
+  unfold indexOf?
+  rw [modifySeg_setArg_names]
+  simp [modifySeg]
+
+/-- helper for `changeArg_op_neq`: what storing an argument does to segment `j` -/
+theorem modifySeg_setArg_get (b : BP) (i k : Nat) (v : Val) (j : Nat) (s : Seg) (h : b.segs[j]? = some s) :
+    (b.modifySeg i (setArg k v)).segs[j]? = some (if i = j then setArg k v s else s) := by
+  simp only [modifySeg, List.getElem?_modify, h]
+  split <;> rfl
+
+/-- "segment `i` has function `fn` and holds `value` as its `k`-th argument" -/
+def ArgSet (b : BP) (i k : Nat) (fn : Fn) (value : Val) : Prop :=
+  ∃ s, b.segs[i]? = some s ∧ s.fn = fn ∧ s.args[k]? = some value
+
+/-- helper for `changeArg_op_neq`: a later step of the loop does not undo an earlier one -/
+theorem changeArgOne_keeps (b b' : BP) (nm : String) (arg value : Val) (i k : Nat) (fn : Fn)
+    (h : b.changeArgOne nm arg value = ⟨b', none⟩)
+    (hk : ∀ seg : Seg, seg.fn = fn → argIndex seg arg = .ok k)
+    (hP : ArgSet b i k fn value) : ArgSet b' i k fn value := by
+  obtain ⟨i', seg', k', _, hseg', hk', hlt, rfl⟩ := changeArgOne_facts b b' nm arg value h
+  obtain ⟨s, hs, hfn, hval⟩ := hP
+  refine ⟨_, modifySeg_setArg_get b i' k' value i s hs, ?_, ?_⟩
+  · split <;> simp [setArg, hfn]
+  · split
+    · rename_i he
+      subst he
+      have hss : s = seg' := by rw [hs] at hseg'; exact Option.some.inj hseg'
+      subst hss
+      have := hk s hfn
+      rw [hk'] at this
+      cases this
+      simp [setArg, hlt]
+    · exact hval
+
+/-- helper for `changeArg_op_neq`: an accepted loop is an accepted step followed by an accepted loop -/
+theorem changeArgLoop_cons (b b' : BP) (nm : String) (rest : List String) (arg value : Val)
+    (h : b.changeArgLoop (nm :: rest) arg value = ⟨b', none⟩) :
+    ∃ b1, b.changeArgOne nm arg value = ⟨b1, none⟩ ∧ b1.changeArgLoop rest arg value = ⟨b', none⟩ := by
+  unfold changeArgLoop at h
+  split at h
+  · rename_i b1 heq
+    exact ⟨b1, heq, h⟩
+  · rename_i hne
+    exact absurd h (hne b')
+
+/-- helper for `changeArg_op_neq`: the rest of the loop does not undo an earlier step -/
+theorem changeArgLoop_keeps (l : List String) (arg value : Val) (i k : Nat) (fn : Fn)
+    (hk : ∀ seg : Seg, seg.fn = fn → argIndex seg arg = .ok k) :
+    ∀ (b b' : BP), b.changeArgLoop l arg value = ⟨b', none⟩ → ArgSet b i k fn value → ArgSet b' i k fn value := by
+  induction l with
+  | nil =>
+    intro b b' h hP
+    unfold changeArgLoop at h
+    cases h
+    exact hP
+  | cons nm rest ih =>
+    intro b b' h hP
+    obtain ⟨b1, h1, h2⟩ := changeArgLoop_cons b b' nm rest arg value h
+    exact ih b1 b' h2 (changeArgOne_keeps b b1 nm arg value i k fn h1 hk hP)
+
+/-- after an accepted loop every addressed segment holds the new value in the addressed argument -/
+theorem changeArgLoop_sets (l : List String) (arg value : Val) :
+    ∀ (b b' : BP), b.changeArgLoop l arg value = ⟨b', none⟩ →
+      ∀ nm ∈ l, ∀ i seg k, b.indexOf? nm = some i → b.segs[i]? = some seg → argIndex seg arg = .ok k →
+        ArgSet b' i k seg.fn value := by
+  induction l with
+  | nil => intro b b' _ nm hnm; simp at hnm
+  | cons nm0 rest ih =>
+    intro b b' h nm hnm i seg k hi hseg hk
+    obtain ⟨b1, h1, h2⟩ := changeArgLoop_cons b b' nm0 rest arg value h
+    obtain ⟨i0, seg0, k0, hi0, hseg0, hk0, hlt0, hb1⟩ := changeArgOne_facts b b1 nm0 arg value h1
+    have hcongr : ∀ t : Seg, t.fn = seg.fn → argIndex t arg = .ok k := fun t ht => by
+      rw [argIndex_congr t seg ht, hk]
+    rcases List.mem_cons.mp hnm with rfl | hmem
+    · rw [hi] at hi0
+      cases hi0
+      rw [hseg] at hseg0
+      cases hseg0
+      rw [hk] at hk0
+      cases hk0
+      apply changeArgLoop_keeps rest arg value i k seg.fn hcongr b1 b' h2
+      subst hb1
+      refine ⟨_, modifySeg_setArg_get b i k value i seg hseg, ?_, ?_⟩
+      · simp [setArg]
+      · simp [setArg, hlt0]
+    · subst hb1
+      have hg := modifySeg_setArg_get b i0 k0 value i seg hseg
+      have := ih _ b' h2 nm hmem i _ k (by rw [modifySeg_setArg_indexOf]; exact hi) hg
+        (by rw [argIndex_congr _ seg (by split <;> simp [setArg]), hk])
+      have hfn : (if i0 = i then setArg k0 value seg else seg).fn = seg.fn := by split <;> simp [setArg]
+      rw [hfn] at this
+      exact this
+
+/-- **an accepted `changeArg(name, arg, value, replaceeverywhere)`** — for one segment or for all
+    segments of the same base name — that stores a value different from what some addressed segment
+    held in that argument makes the blueprint unequal to what it was -/
+theorem changeArg_op_neq (b : BP) (name : String) (arg value : Val) (all : Bool)
+    (hacc : (b.changeArg name arg value all).err = none)
+    (hdiff : ∃ nm ∈ (b.targets name all).2, ∃ i seg k, b.indexOf? nm = some i ∧ b.segs[i]? = some seg ∧
+      argIndex seg arg = .ok k ∧ seg.args[k]? ≠ some value) :
+    (b.changeArg name arg value all).st.beq b = false := by
+  obtain ⟨nm, hnm, i, seg, k, hi, hseg, hk, hne⟩ := hdiff
+  unfold changeArg at hacc ⊢
+  split at hacc
+  · simp at hacc
+  · rename_i hc
+    simp only [hc, if_false]
+    have hres : b.changeArgLoop (b.targets name all).2 arg value =
+        ⟨(b.changeArgLoop (b.targets name all).2 arg value).st, none⟩ := by
+      revert hacc
+      generalize b.changeArgLoop (b.targets name all).2 arg value = r
+      intro hacc
+      obtain ⟨st, err⟩ := r
+      simp only at hacc
+      rw [hacc]
+    obtain ⟨s', hs', _, hval⟩ := changeArgLoop_sets _ arg value b _ hres nm hnm i seg k hi hseg hk
+    apply bp_differ_neq
+    refine Or.inr (Or.inl ⟨i, s', seg, hs', hseg, Or.inr (Or.inr (Or.inl ?_))⟩)
+    intro e
+    rw [e] at hval
+    exact hne hval
+
+/-! ### single public mutations of an element or a sequence -/
+
+open Element in
+/-- channel entries holding the same data but different flags are unequal (also for a channel
+    left broken by a refused `addArray`) -/
+theorem entEq_flags_same_data (x y : ChEntry) (hd : x.data = y.data) (hf : x.flags ≠ y.flags) : entEq x y = false := by
+  obtain ⟨d, f⟩ := x
+  obtain ⟨d', f'⟩ := y
+  simp only at hd hf
+  subst hd
+  cases d <;> simp [entEq, hf]
+
+/-- **an accepted `addFlags(channel, flags)`** that stores flags different from the ones the
+    channel had makes the element unequal to what it was -/
+theorem addFlags_neq (e : Element) (hwf : Dict.WF e.chans) (ch : Chan) (fl : List Val)
+    (hacc : (e.addFlags ch fl).err = none)
+    (hdiff : ∀ ent, Dict.get? e.chans ch = some ent → ent.flags ≠ fl.mapM flagToken?) :
+    (e.addFlags ch fl).st.beq e = false ∧ e.beq (e.addFlags ch fl).st = false := by
+  unfold Element.addFlags at *
+  split at hacc
+  · simp at hacc
+  · rename_i hlen
+    simp only [hlen, Bool.false_eq_true, if_false] at hdiff ⊢
+    split at hacc
+    · simp at hacc
+    · rename_i fl' hfl'
+      split at hacc
+      · simp at hacc
+      · rename_i ent hent
+        have hne := hdiff ent hent
+        rw [hfl'] at hne
+        constructor
+        · rw [Bool.eq_false_iff]
+          intro he
+          obtain ⟨y, hy, hee⟩ := ((el_eq_iff _ e (Dict.wf_upsert hwf _ _)).mp he).2 ch _ (Dict.get?_upsert_self _ _ _)
+          rw [hent] at hy
+          cases hy
+          rw [entEq_flags_same_data ⟨ent.data, some fl'⟩ ent rfl (fun h => hne h.symm)] at hee
+          cases hee
+        · rw [Bool.eq_false_iff]
+          intro he
+          obtain ⟨y, hy, hee⟩ := ((el_eq_iff e _ hwf).mp he).2 ch _ hent
+          rw [Dict.get?_upsert_self] at hy
+          cases hy
+          rw [entEq_flags_same_data ent ⟨ent.data, some fl'⟩ rfl hne] at hee
+          cases hee
+
+/-- **an accepted `setSequencingTriggerWait / NumberOfRepetitions / EventInput / EventJumpTarget /
+    Goto(pos, v)`** (`f` is the field update) that changes the entry makes the sequence unequal to
+    what it was -/
+theorem setSequencing_neq (s : Sequence) (hwf : Dict.WF s.sequencing) (pos : Int) (f : SeqSet → SeqSet)
+    (hacc : (s.setSequencing pos f).err = none)
+    (hdiff : ∀ q, Dict.get? s.sequencing pos = some q → f q ≠ q) :
+    Sequence.beq (s.setSequencing pos f).st s = false ∧ s.beq (s.setSequencing pos f).st = false := by
+  unfold SeqCore.setSequencing at *
+  split at hacc
+  · simp at hacc
+  · rename_i q hq
+    simp only
+    constructor
+    · exact seq_sequencing_neq _ s (Dict.wf_upsert hwf _ _) pos (f q) (Dict.get?_upsert_self _ _ _)
+        (by rw [hq]; intro h; exact hdiff q hq (Option.some.inj h).symm)
+    · exact seq_sequencing_neq s _ hwf pos q hq
+        (by simp only; rw [Dict.get?_upsert_self]; intro h; exact hdiff q hq (Option.some.inj h))
+
+/-- a changed AWG setting makes the sequence unequal to what it was -/
+theorem setSpec_neq (s : Sequence) (hwf : Dict.WF s.awgspecs) (k : String) (v : Spec)
+    (hdiff : Dict.get? s.awgspecs k ≠ some v) :
+    Sequence.beq (s.setSpec k v) s = false ∧ s.beq (s.setSpec k v) = false := by
+  constructor
+  · exact seq_awgspec_neq _ s (Dict.wf_upsert hwf _ _) k v (Dict.get?_upsert_self _ _ _) hdiff
+  · cases hk : Dict.get? s.awgspecs k with
+    | some w =>
+      refine seq_awgspec_neq s _ hwf k w hk ?_
+      simp only [SeqCore.setSpec]
+      rw [Dict.get?_upsert_self]
+      intro h; cases h; exact hdiff hk
+    | none =>
+      -- one setting more: the sizes differ
+      rw [Bool.eq_false_iff]
+      intro he
+      obtain ⟨_, h2, _⟩ := (seq_eq_iff _ _).mp he
+      have := (Dict.eqBy_keys _ hwf (Dict.wf_upsert hwf k v) h2 k).mp
+        ((Dict.mem_keys_upsert _ _ _ _).mpr (Or.inl rfl))
+      rw [Dict.get?_eq_none_iff] at hk
+      exact hk this
+
+/-- **`setChannelAmplitude`, `setChannelOffset`, `setChannelDelay`, `setSR`** with a value different
+    from the stored one make the sequence unequal to what it was -/
+theorem setChannelAmplitude_neq (s : Sequence) (hwf : Dict.WF s.awgspecs) (ch : Chan) (v : Val)
+    (hdiff : Dict.get? s.awgspecs (keyOf ch "amplitude") ≠ some (.val v)) :
+    Sequence.beq (s.setChannelAmplitude ch v) s = false ∧ s.beq (s.setChannelAmplitude ch v) = false :=
+  setSpec_neq s hwf _ _ hdiff
+
+/-- C20 "differ in any AWG setting ⇒ unequal", for `setChannelOffset` with a new value -/
+theorem setChannelOffset_neq (s : Sequence) (hwf : Dict.WF s.awgspecs) (ch : Chan) (v : Val)
+    (hdiff : Dict.get? s.awgspecs (keyOf ch "offset") ≠ some (.val v)) :
+    Sequence.beq (s.setChannelOffset ch v) s = false ∧ s.beq (s.setChannelOffset ch v) = false :=
+  setSpec_neq s hwf _ _ hdiff
+
+/-- C20 "differ in any AWG setting ⇒ unequal", for `setChannelDelay` with a new value -/
+theorem setChannelDelay_neq (s : Sequence) (hwf : Dict.WF s.awgspecs) (ch : Chan) (v : Val)
+    (hdiff : Dict.get? s.awgspecs (keyOf ch "delay") ≠ some (.val v)) :
+    Sequence.beq (s.setChannelDelay ch v) s = false ∧ s.beq (s.setChannelDelay ch v) = false :=
+  setSpec_neq s hwf _ _ hdiff
+
+/-- C20 "differ in any AWG setting ⇒ unequal", for `Sequence.setSR` with a new value -/
+theorem setSR_neq (s : Sequence) (hwf : Dict.WF s.awgspecs) (v : Val)
+    (hdiff : Dict.get? s.awgspecs "SR" ≠ some (.val v)) :
+    Sequence.beq (s.setSR v) s = false ∧ s.beq (s.setSR v) = false :=
+  setSpec_neq s hwf _ _ hdiff
+
+/-- an accepted `setChannelFilterCompensation` that changes the stored filter -/
+theorem setChannelFilterCompensation_neq (s : Sequence) (hwf : Dict.WF s.awgspecs) (ch : Chan) (kind : String)
+    (order : Int) (isInt : Bool) (fc tau : Val)
+    (hacc : (s.setChannelFilterCompensation ch kind order isInt fc tau).err = none)
+    (hdiff : Dict.get? s.awgspecs (keyOf ch "filtercompensation") ≠ some (.filt ⟨kind, order, fc, tau⟩)) :
+    Sequence.beq (s.setChannelFilterCompensation ch kind order isInt fc tau).st s = false := by
+  unfold SeqCore.setChannelFilterCompensation at *
+  split at hacc
+  · simp at hacc
+  · split at hacc
+    · simp at hacc
+    · split at hacc
+      · simp at hacc
+      · rename_i h1 h2 h3
+        simp only [h1, h2, h3, if_false]
+        exact (setSpec_neq s hwf _ _ hdiff).1
+
+/-- replacing the element of a position by an unequal one makes the sequence unequal -/
+theorem addElement_neq (s : Sequence) (hwf : Dict.WF s.data) (pos : Int) (e old : Element)
+    (hacc : (s.addElement pos e).err = none)
+    (hold : Dict.get? s.data pos = some (.el old)) (hne : e.beq old = false) :
+    (s.addElement pos e).st.beq s = false := by
+  unfold Sequence.addElement at *
+  split at hacc
+  · simp at hacc
+  · rename_i m hm
+    simp only
+    refine seq_element_neq _ s (Dict.wf_upsert hwf _ _) pos { e with cache := some m } old
+      (Dict.get?_upsert_self _ _ _) hold ?_
+    exact hne
+
 /-! ### non-vacuity -/
 
 example : (d23_bp 10).beq (d23_bp 10) = true := by decide +kernel
 example : ((d23_bp 10).changeDuration "ramp" (.num 2) false).err = none := by decide +kernel
 example : ((d23_bp 10).changeDuration "ramp" (.num 2) false).st.beq (d23_bp 10) = false := by decide +kernel
+
+/-! ### equal sequences forge alike (at equal channel sample rates, in equal insertion order) -/
+
+/-- helper for `seq_eq_forge_partial`: same keys in the same order and related values under equal keys -/
+theorem rel_of_keys_eq {κ α β : Type} [DecidableEq κ] (R : α → β → Prop) :
+    ∀ (a : Dict κ α) (b : Dict κ β), Dict.keys a = Dict.keys b →
+      (∀ k x y, (k, x) ∈ a → (k, y) ∈ b → R x y) → Dict.Rel R a b := by
+  intro a
+  induction a with
+  | nil =>
+    intro b hk _
+    cases b with
+    | nil => exact List.Forall₂.nil
+    | cons _ _ => simp [Dict.keys] at hk
+  | cons p ps ih =>
+    intro b hk h
+    cases b with
+    | nil => simp [Dict.keys] at hk
+    | cons q qs =>
+      simp only [Dict.keys, List.map_cons, List.cons.injEq] at hk
+      refine List.Forall₂.cons ⟨hk.1, ?_⟩ (ih qs hk.2 (fun k x y hx hy => h k x y (by simp [hx]) (by simp [hy])))
+      obtain ⟨k, x⟩ := p
+      obtain ⟨k', y⟩ := q
+      simp only at hk
+      obtain ⟨rfl, _⟩ := hk
+      exact h k x y (by simp) (by simp)
+
+/-- helper for `seq_eq_forge_partial`: dictionaries related by equality are equal -/
+theorem rel_eq_eq {κ α : Type} [DecidableEq κ] {a b : Dict κ α} (h : Dict.Rel (· = ·) a b) : a = b := by
+  induction h with
+  | nil => rfl
+  | @cons x y xs ys hxy _ ih =>
+    obtain ⟨k, v⟩ := x
+    obtain ⟨k', v'⟩ := y
+    simp only at hxy
+    rw [hxy.1, hxy.2, ih]
+
+open Element in
+/-- equal channel entries with the same sample rate are the same entry -/
+theorem entEq_eq_of_sr (x y : ChEntry) (h : entEq x y = true) (hsr : chanSR x = chanSR y) : x = y := by
+  obtain ⟨d, f⟩ := x
+  obtain ⟨d', f'⟩ := y
+  cases d <;> cases d' <;> simp_all [entEq, chanSR]
+  rename_i p q
+  exact (bp_eq_forge p q h.1 hsr).1
+
+/-- the two channel stores list the same channels in the same order, each at the same sample rate -/
+def ElOrdSR (e e' : Element) : Prop :=
+  Dict.keys e.chans = Dict.keys e'.chans ∧
+  ∀ ch x y, Dict.get? e.chans ch = some x → Dict.get? e'.chans ch = some y → Element.chanSR x = Element.chanSR y
+
+/-- … for the element of an element position, and for every element of a subsequence position
+    (whose positions are listed in the same order) -/
+def EntOrdSR : Entry → Entry → Prop
+  | .el e, .el e' => ElOrdSR e e'
+  | .sub s, .sub s' => Dict.keys s.data = Dict.keys s'.data ∧
+      ∀ k e e', Dict.get? s.data k = some e → Dict.get? s'.data k = some e' → ElOrdSR e e'
+  | _, _ => True
+
+/-- equal elements listing their channels in the same order at the same sample rates have the same
+    channel store -/
+theorem el_eq_chans (a b : Element) (ha : Dict.WF a.chans) (hb : Dict.WF b.chans) (h : a.beq b = true)
+    (ho : ElOrdSR a b) : ElRel a b := by
+  apply rel_eq_eq
+  apply rel_of_keys_eq _ _ _ ho.1
+  intro ch x y hx hy
+  have hx' := Dict.get?_eq_some_of_mem ha ch x hx
+  have hy' := Dict.get?_eq_some_of_mem hb ch y hy
+  obtain ⟨y2, hy2, he⟩ := ((el_eq_iff a b ha).mp h).2 ch x hx'
+  rw [hy'] at hy2
+  cases hy2
+  exact entEq_eq_of_sr x y he (ho.2 ch x y hx' hy')
+
+/-- helper for `seq_eq_forge_partial`: equal stored entries (same channel order and sample rates) agree up to caches -/
+theorem entry_eq_rel (x y : Entry) (hx : EntryWF x) (hy : EntryWF y) (h : x.beq y = true) (ho : EntOrdSR x y) :
+    EntRel x y := by
+  cases x with
+  | el a => cases y with
+    | el b => exact el_eq_chans a b hx hy h ho
+    | sub _ => simp [Entry.beq] at h
+  | sub a => cases y with
+    | el _ => simp [Entry.beq] at h
+    | sub b =>
+      obtain ⟨a1, a2, a3, a4⟩ := hx
+      obtain ⟨b1, b2, b3, b4⟩ := hy
+      simp only [Entry.beq, Bool.and_eq_true] at h
+      obtain ⟨⟨h1, h2⟩, h3⟩ := h
+      refine ⟨?_, Dict.eqBy_beq_get? a2 b2 h2, Dict.eqBy_beq_get? a3 b3 h3⟩
+      apply rel_of_keys_eq _ _ _ ho.1
+      intro k e e' he he'
+      have hx' := Dict.get?_eq_some_of_mem a1 k e he
+      have hy' := Dict.get?_eq_some_of_mem b1 k e' he'
+      obtain ⟨y2, hy2, hee⟩ := ((Dict.eqBy_iff _ a1).mp h1).2 k e hx'
+      rw [hy'] at hy2
+      cases hy2
+      exact el_eq_chans e e' (a4 e (Dict.mem_vals_of_get? hx')) (b4 e' (Dict.mem_vals_of_get? hy')) hee
+        (ho.2 k e e' hx' hy')
+
+/-- **equal sequences forge identically** — the same arrays for every position and channel, or
+    the same exception — for every combination of `apply_delays`, `apply_filters`, `includetime`.
+
+    `…_partial`, two hypotheses beyond `a == b` are needed and cannot be dropped:
+    * *equal channel sample rates* (`EntOrdSR`, second half): `BluePrint.__eq__` ignores the sample
+      rate — finding D23, witness `seq_eq_not_forge_counterexample` below;
+    * *equal insertion order* of the positions and of the channels of every element (`hord`,
+      `EntOrdSR` first half): Python's `dict.__eq__` ignores insertion order, but the order decides
+      which of several exceptions is raised first, in which order `getArrays` lists the channels,
+      and even whether `validateDurations` accepts the element (`numpy.allclose` compares with the
+      first channel's duration) — witness `el_eq_order_counterexample` below. -/
+theorem seq_eq_forge_partial (a b : Sequence) (ha : SeqWF a) (hb : SeqWF b) (h : a.beq b = true)
+    (hord : Dict.keys a.data = Dict.keys b.data)
+    (hsr : ∀ pos x y, Dict.get? a.data pos = some x → Dict.get? b.data pos = some y → EntOrdSR x y)
+    (d f t : Bool) : a.forge d f t = b.forge d f t := by
+  obtain ⟨h1, h2, h3⟩ := (seq_eq_iff a b).mp h
+  apply Sequence.forge_congr a b ?_ (Dict.eqBy_beq_get? ha.specs hb.specs h2)
+    (Dict.eqBy_beq_get? ha.sequencing hb.sequencing h3)
+  apply rel_of_keys_eq _ _ _ hord
+  intro k x y hx hy
+  have hx' := Dict.get?_eq_some_of_mem ha.data k x hx
+  have hy' := Dict.get?_eq_some_of_mem hb.data k y hy
+  obtain ⟨y2, hy2, hee⟩ := ((Dict.eqBy_iff _ ha.data).mp h1).2 k x hx'
+  rw [hy'] at hy2
+  cases hy2
+  exact entry_eq_rel x y (ha.entries x (Dict.mem_vals_of_get? hx')) (hb.entries y (Dict.mem_vals_of_get? hy')) hee
+    (hsr k x y hx' hy')
+
+/-- equal elements (same channel order, same sample rates) deliver the same arrays -/
+theorem el_eq_forge_partial (a b : Element) (ha : Dict.WF a.chans) (hb : Dict.WF b.chans) (h : a.beq b = true)
+    (ho : ElOrdSR a b) (t : Bool) :
+    a.getArrays t = b.getArrays t ∧ a.validate = b.validate ∧ a.channels = b.channels := by
+  have hr := el_eq_chans a b ha hb h ho
+  exact ⟨hr.getArrays t, by rw [hr.eq_cache, validate_cache], hr.channels⟩
+
+/-! #### the hypotheses cannot be dropped -/
+
+/-- a one-position sequence holding the D23 blueprint at sample rate `sr` on channel 1 -/
+def d23_seq (sr : Rat) : Sequence :=
+  { data := [(1, .el ⟨[(Chan.int 1, ⟨.bp (d23_bp sr), none⟩)], none⟩)],
+    sequencing := [(1, Sequence.defaultSeqEl)],
+    awgspecs := [("SR", .val (.num 10))] }
+
+/-- the number of samples of every channel of every position of a forged sequence -/
+def forgedN (r : Except Err (List (Nat × ForgedPos))) : Option (List (List (List (Option Nat)))) :=
+  match r with
+  | .ok out => some (out.map (fun p => p.2.content.map (fun c => c.2.1.map (fun co => outN (.ok co.2.out)))))
+  | .error _ => none
+
+/-- **D23 at sequence level**: two sequences that compare equal (`==` both ways round) and forge
+    to a different number of samples — the channel blueprints differ in nothing but the sample
+    rate, which no `__eq__` looks at -/
+theorem seq_eq_not_forge_counterexample :
+    (d23_seq 10).beq (d23_seq 20) = true ∧ (d23_seq 20).beq (d23_seq 10) = true ∧
+    forgedN ((d23_seq 10).forge false false false) = some [[[some 10]]] ∧
+    forgedN ((d23_seq 20).forge false false false) = some [[[some 20]]] := by
+  decide +kernel
+
+/-- two channels holding the same blueprint, stored in either order -/
+def order_el (first second : Int) : Element :=
+  ⟨[(Chan.int first, ⟨.bp (d23_bp 10), none⟩), (Chan.int second, ⟨.bp (d23_bp 10), none⟩)], none⟩
+
+/-- **insertion order is visible**: two elements that compare equal and agree in every sample
+    rate, yet list their channels (and hence the arrays `getArrays` returns) in a different order;
+    in Python both results are dicts, which compare equal -/
+theorem el_eq_order_counterexample :
+    (order_el 1 2).beq (order_el 2 1) = true ∧
+    (order_el 1 2).channels = [Chan.int 1, Chan.int 2] ∧ (order_el 2 1).channels = [Chan.int 2, Chan.int 1] ∧
+    ((order_el 1 2).getArrays false).toOption ≠ ((order_el 2 1).getArrays false).toOption := by
+  decide +kernel
+
+/-! #### non-vacuity of `seq_eq_forge_partial` -/
+
+/-- non-vacuity: the D23 sequences are well-formed -/
+theorem d23_seq_wf (sr : Rat) : SeqWF (d23_seq sr) := by
+  refine ⟨by simp [Dict.WF, Dict.keys, d23_seq], by simp [Dict.WF, Dict.keys, d23_seq],
+    by simp [Dict.WF, Dict.keys, d23_seq], ?_⟩
+  intro en hen
+  simp only [d23_seq, Dict.vals, List.map_cons, List.map_nil, List.mem_singleton] at hen
+  subst hen
+  show Dict.WF _
+  simp [Dict.WF, Dict.keys]
+
+example : (d23_seq 10).copy.beq (d23_seq 10) = true := (seq_copy_eq _ (d23_seq_wf 10)).1
+
+example : Dict.keys (d23_seq 10).copy.data = Dict.keys (d23_seq 10).data := rfl
+
+example : ∀ pos x y, Dict.get? (d23_seq 10).copy.data pos = some x → Dict.get? (d23_seq 10).data pos = some y →
+    EntOrdSR x y := by
+  intro pos x y hx hy
+  have : x = y := by
+    have : (d23_seq 10).copy.data = (d23_seq 10).data := rfl
+    rw [this, hy] at hx
+    exact (Option.some.inj hx).symm
+  subst this
+  have hmem := Dict.mem_of_get?_eq_some pos x hx
+  simp only [Sequence.copy, d23_seq, List.mem_singleton, Prod.mk.injEq] at hmem
+  obtain ⟨_, rfl⟩ := hmem
+  refine ⟨rfl, fun ch x y hx hy => ?_⟩
+  rw [hx] at hy
+  cases hy
+  rfl
+
+/-- a one-ramp blueprint of duration `dur` at 0.1 Sa/s -/
+def slow_bp (dur : Rat) : BP :=
+  { segs := [{ name := "ramp", fn := Fn.rampFn, args := [.num 0, .num 1], dur := .num dur }], SR := .num (1 / 10) }
+
+/-- channel 1 lasts 10 s, channel 2 lasts 10.1001005 s (one sample each at 0.1 Sa/s); stored in
+    either order -/
+def slow_el (ch1First : Bool) : Element :=
+  if ch1First then
+    ⟨[(Chan.int 1, ⟨.bp (slow_bp 10), none⟩), (Chan.int 2, ⟨.bp (slow_bp (20200201 / 2000000)), none⟩)], none⟩
+  else
+    ⟨[(Chan.int 2, ⟨.bp (slow_bp (20200201 / 2000000)), none⟩), (Chan.int 1, ⟨.bp (slow_bp 10), none⟩)], none⟩
+
+/-- **`validateDurations` depends on the insertion order** (suspicious in the code, not only in
+    the model): `numpy.allclose(durations, durations[0], atol=min(SRs))` measures every duration
+    against the *first* channel's with a tolerance relative to it.  The two elements below hold
+    the same two blueprints under the same channel numbers and compare equal both ways round; the
+    one that lists channel 1 first is refused (ElementDurationError), the other validates — so one
+    of two `==` elements forges and the other raises. -/
+theorem el_eq_validate_order_counterexample :
+    (slow_el true).beq (slow_el false) = true ∧ (slow_el false).beq (slow_el true) = true ∧
+    (match (slow_el true).validate with | .error e => some e | .ok _ => none) = some Err.elemdur ∧
+    (slow_el false).validate.toOption = some (.num (1 / 10), 20200201 / 2000000) := by
+  decide +kernel
+
+/-! ### equal objects have equal descriptions (as Python compares dicts) -/
+
+open Element in
+/-- helper for `el_eq_desc`: a channel description fails with TypeError only -/
+theorem chanDesc_err (ent : ChEntry) (er : Err) (h : chanDesc ent = .error er) : er = .type := by
+  obtain ⟨d, fl⟩ := ent
+  cases d with
+  | bp b =>
+    simp only [chanDesc] at h
+    split at h <;> cases h
+  | arr a s =>
+    cases fl with
+    | none => simp only [chanDesc] at h; cases h
+    | some _ => simp only [chanDesc] at h; cases h; rfl
+  | broken =>
+    cases fl with
+    | none => simp only [chanDesc] at h; cases h
+    | some _ => simp only [chanDesc] at h; cases h; rfl
+
+open Element in
+/-- helper for `el_eq_desc`: a description field fails with TypeError only -/
+theorem chanField_err (p : Chan × ChEntry) (er : Err) (h : chanField p = .error er) : er = .type := by
+  unfold chanField at h
+  cases hd : chanDesc p.2 with
+  | error e' => rw [hd] at h; simp only [Except.error.injEq] at h; rw [← h]; exact chanDesc_err _ _ hd
+  | ok _ => rw [hd] at h; cases h
+
+/-- every failure of `Element.description` is a TypeError (flags on a raw-array channel) -/
+theorem el_toDesc_err (e : Element) (er : Err) (h : e.toDesc = .error er) : er = .type := by
+  unfold Element.toDesc at h
+  cases hm : e.chans.mapM Element.chanField with
+  | error e' =>
+    rw [hm] at h
+    simp only [Except.error.injEq] at h
+    obtain ⟨x, _, hx⟩ := mapM_error_mem _ _ _ hm
+    rw [← h]
+    exact chanField_err x e' hx
+  | ok _ => rw [hm] at h; cases h
+
+/-- **equal elements have equal descriptions**: the description of the one is a reordering of
+    the description of the other (channel by channel the very same record), or both raise the
+    same exception -/
+theorem el_eq_desc (a b : Element) (ha : Dict.WF a.chans) (hb : Dict.WF b.chans) (h : a.beq b = true) :
+    ExRel J.DictEq a.toDesc b.toDesc := by
+  obtain ⟨g, hperm, hg⟩ := Dict.eqBy_perm Element.entEq ha hb h
+  have hmap : (a.chans.map (fun p => (p.1, g p))).mapM Element.chanField = a.chans.mapM Element.chanField :=
+    mapM_map_congr Element.chanField Element.chanField (fun p => (p.1, g p)) a.chans (fun p hp => by
+      unfold Element.chanField
+      simp only
+      rw [← entEq_desc p.2 (g p) (hg p hp)])
+  cases hA : a.chans.mapM Element.chanField with
+  | ok fa =>
+    obtain ⟨fb, hfb, hpf⟩ := mapM_perm_ok _ hperm fa (by rw [hmap]; exact hA)
+    unfold Element.toDesc
+    rw [hA, hfb]
+    exact J.DictEq.of_perm hpf
+  | error er =>
+    have h1 : a.toDesc = .error er := by unfold Element.toDesc; rw [hA]
+    cases hB : b.chans.mapM Element.chanField with
+    | error er' =>
+      have h2 : b.toDesc = .error er' := by unfold Element.toDesc; rw [hB]
+      rw [h1, h2]
+      simp only [ExRel]
+      rw [el_toDesc_err a er h1, el_toDesc_err b er' h2]
+    | ok fb =>
+      exfalso
+      obtain ⟨fb', hfb', _⟩ := mapM_perm_ok _ hperm.symm fb hB
+      rw [hmap, hA] at hfb'
+      cases hfb'
+
+/-- the same for what sits at a position of a sequence: an element or a subsequence -/
+theorem entry_eq_desc (x y : Entry) (hx : EntryWF x) (hy : EntryWF y) (h : x.beq y = true) :
+    ExRel J.DictEq (entryDesc x) (entryDesc y) := by
+  cases x with
+  | el a => cases y with
+    | el b => exact el_eq_desc a b hx hy h
+    | sub _ => simp [Entry.beq] at h
+  | sub a => cases y with
+    | el _ => simp [Entry.beq] at h
+    | sub b =>
+      obtain ⟨a1, a2, a3, a4⟩ := hx
+      obtain ⟨b1, b2, b3, b4⟩ := hy
+      simp only [Entry.beq, Bool.and_eq_true] at h
+      obtain ⟨⟨h1, h2⟩, h3⟩ := h
+      simp only [entryDesc]
+      rw [Sequence.subToDesc_eq_G, Sequence.subToDesc_eq_G]
+      refine toDescG_rel Element.beq Element.toDesc el_toDesc_err a.data b.data a1 b1 h1
+        (fun x hx y hy hxy => el_eq_desc x y (a4 x hx) (b4 y hy) hxy) _ _ ?_ _ _ a2 b2 h2
+      intro k
+      unfold subSeqnJ
+      rw [Dict.eqBy_beq_get? a3 b3 h3]
+
+/-- helper for `seq_eq_desc`: the description of a stored entry fails with TypeError only -/
+theorem entryDesc_err (x : Entry) (er : Err) (h : entryDesc x = .error er) : er = .type := by
+  cases x with
+  | el e => exact el_toDesc_err e er h
+  | sub s =>
+    simp only [entryDesc] at h
+    rw [Sequence.subToDesc_eq_G] at h
+    exact toDescG_err _ el_toDesc_err _ _ _ _ h
+
+/-- **equal sequences have equal descriptions**: positions, channels inside a position and AWG
+    settings may be listed in a different order (which Python's `dict.__eq__` ignores); every
+    channel record, sequencing entry and setting is the same.  Or both raise the same exception. -/
+theorem seq_eq_desc (a b : Sequence) (ha : SeqWF a) (hb : SeqWF b) (h : a.beq b = true) :
+    ExRel J.DictEq a.toDesc b.toDesc := by
+  obtain ⟨h1, h2, h3⟩ := (seq_eq_iff a b).mp h
+  rw [Sequence.toDesc_eq_G, Sequence.toDesc_eq_G]
+  refine toDescG_rel Entry.beq entryDesc entryDesc_err a.data b.data ha.data hb.data h1
+    (fun x hx y hy hxy => entry_eq_desc x y (ha.entries x hx) (hb.entries y hy) hxy) _ _ ?_ _ _ ha.specs hb.specs h2
+  intro k
+  unfold Sequence.seqnJ
+  rw [Dict.eqBy_beq_get? ha.sequencing hb.sequencing h3]
+
+/-- … spelled out for the successful case -/
+theorem seq_eq_desc_ok (a b : Sequence) (ha : SeqWF a) (hb : SeqWF b) (h : a.beq b = true) (da : J)
+    (hda : a.toDesc = .ok da) : ∃ db, b.toDesc = .ok db ∧ J.DictEq da db := by
+  have := seq_eq_desc a b ha hb h
+  rw [hda] at this
+  cases hdb : b.toDesc with
+  | error e => rw [hdb] at this; simp [ExRel] at this
+  | ok db => rw [hdb] at this; exact ⟨db, rfl, this⟩
+
+/-- C20 "equal elements have equal descriptions", spelled out for the successful case -/
+theorem el_eq_desc_ok (a b : Element) (ha : Dict.WF a.chans) (hb : Dict.WF b.chans) (h : a.beq b = true) (da : J)
+    (hda : a.toDesc = .ok da) : ∃ db, b.toDesc = .ok db ∧ J.DictEq da db := by
+  have := el_eq_desc a b ha hb h
+  rw [hda] at this
+  cases hdb : b.toDesc with
+  | error e => rw [hdb] at this; simp [ExRel] at this
+  | ok db => rw [hdb] at this; exact ⟨db, rfl, this⟩
+
+/-- non-vacuity: the two-channel elements above compare equal and both have a description; the
+    two descriptions list the channels in different order -/
+example : (order_el 1 2).beq (order_el 2 1) = true ∧ (order_el 1 2).toDesc.toOption.isSome = true := by
+  decide +kernel
+
+/-! ### … and a successful forge does not even need the positions in the same order -/
+
+/-- helper for `seq_eq_forge_anyorder_partial`: a store and its value-wise image are related -/
+theorem rel_map_right {κ α : Type} [DecidableEq κ] (R : α → α → Prop) (g : κ × α → α) (A0 : Dict κ α)
+    (hR : ∀ p ∈ A0, R p.2 (g p)) :
+    ∀ A : Dict κ α, (∀ p ∈ A, p ∈ A0) → Dict.Rel R A (A.map (fun p => (p.1, g p))) := by
+  intro A
+  induction A with
+  | nil => intro _; exact List.Forall₂.nil
+  | cons x xs ih =>
+    intro hsub
+    exact List.Forall₂.cons ⟨rfl, hR x (hsub x (by simp))⟩ (ih (fun p hp => hsub p (by simp [hp])))
+
+/-- **equal sequences forge to the same arrays whenever one of them forges at all**, whatever the
+    order in which their positions were filled.
+
+    `…_partial`: still under the hypothesis that the channels of corresponding elements are listed
+    in the same order at the same sample rates (`EntOrdSR`; see `seq_eq_forge_partial` for why
+    neither half can be dropped), and only for the successful case — when forging fails, *which*
+    exception is raised may depend on the order of the positions (`checkConsistency` walks the
+    store in insertion order). -/
+theorem seq_eq_forge_anyorder_partial (a b : Sequence) (ha : SeqWF a) (hb : SeqWF b) (h : a.beq b = true)
+    (hsr : ∀ pos x y, Dict.get? a.data pos = some x → Dict.get? b.data pos = some y → EntOrdSR x y)
+    (d f t : Bool) (out : List (Nat × ForgedPos)) :
+    a.forge d f t = .ok out ↔ b.forge d f t = .ok out := by
+  obtain ⟨h1, h2, h3⟩ := (seq_eq_iff a b).mp h
+  obtain ⟨g, hperm, hg⟩ := Dict.eqBy_perm Entry.beq ha.data hb.data h1
+  let c : Sequence := { b with data := a.data.map (fun p => (p.1, g p)) }
+  have hcwf : Dict.WF c.data := by
+    show Dict.WF (a.data.map (fun p => (p.1, g p)))
+    unfold Dict.WF Dict.keys
+    rw [List.map_map]
+    exact ha.data
+  have hrel : Dict.Rel EntRel a.data c.data := by
+    apply rel_map_right EntRel g a.data ?_ a.data (fun _ hp => hp)
+    intro p hp
+    have hq : (p.1, g p) ∈ b.data := hperm.mem_iff.mp (List.mem_map.mpr ⟨p, hp, rfl⟩)
+    have hx := Dict.get?_eq_some_of_mem ha.data p.1 p.2 hp
+    have hy := Dict.get?_eq_some_of_mem hb.data p.1 (g p) hq
+    exact entry_eq_rel p.2 (g p) (ha.entries _ (Dict.mem_vals_of_get? hx)) (hb.entries _ (Dict.mem_vals_of_get? hy))
+      (hg p hp) (hsr p.1 p.2 (g p) hx hy)
+  have hac : a.forge d f t = c.forge d f t :=
+    Sequence.forge_congr a c hrel (Dict.eqBy_beq_get? ha.specs hb.specs h2)
+      (Dict.eqBy_beq_get? ha.sequencing hb.sequencing h3) d f t
+  rw [hac]
+  exact ⟨Sequence.forge_perm_ok c b hperm hcwf rfl rfl d f t out,
+    Sequence.forge_perm_ok b c hperm.symm hb.data rfl rfl d f t out⟩
+
+/-- two positions filled in either order -/
+def two_pos (firstOne : Bool) : Sequence :=
+  { data := if firstOne then [(1, .el (order_el 1 2)), (2, .el (order_el 1 2))]
+            else [(2, .el (order_el 1 2)), (1, .el (order_el 1 2))],
+    sequencing := [(1, Sequence.defaultSeqEl), (2, Sequence.defaultSeqEl)],
+    awgspecs := [("SR", .val (.num 10))] }
+
+/-- non-vacuity: the same two elements stored in either order compare equal, and forging succeeds -/
+example : (two_pos true).beq (two_pos false) = true ∧
+    Dict.keys (two_pos true).data ≠ Dict.keys (two_pos false).data ∧
+    ((two_pos true).forge false false false).toOption.isSome = true := by
+  decide +kernel
+
+/-! ### non-vacuity of the mutation theorems: concrete accepted calls that change something -/
+
+-- setSegmentMarker_op_neq / removeSegmentMarker_op_neq
+example : ((d23_bp 10).setSegmentMarker "ramp" (0, 1 / 2) 1).err = none ∧ (d23_bp 10).indexOf? "ramp" = some 0 ∧
+    ((d23_bp 10).segs[0]?).map (·.m1) = some (0, 0) := by decide +kernel
+example : ((d23_bp 10).setSegmentMarker "ramp" (0, 1 / 2) 1).st.beq (d23_bp 10) = false := by decide +kernel
+
+-- changeArg_op_neq: argument "stop" of the ramp is 1, set it to 2
+example : ((d23_bp 10).changeArg "ramp" (.str "stop") (.num 2) false).err = none ∧
+    ((d23_bp 10).targets "ramp" false).2 = ["ramp"] ∧ (d23_bp 10).indexOf? "ramp" = some 0 := by decide +kernel
+example : ((d23_bp 10).changeArg "ramp" (.str "stop") (.num 2) false).st.beq (d23_bp 10) = false := by
+  decide +kernel
+
+-- addFlags_neq: channel 1 had no flags
+example : ((order_el 1 2).addFlags (.int 1) [.num 1, .num 0, .str "T", .num 0]).err = none ∧
+    (Dict.get? (order_el 1 2).chans (.int 1)).map (·.flags) = some none := by decide +kernel
+
+-- setSequencing_neq: five repetitions instead of the default
+example : ((d23_seq 10).setSequencing 1 (fun q => { q with nrep := 5 })).err = none ∧
+    (Dict.get? (d23_seq 10).sequencing 1).map (·.nrep) = some 1 := by decide +kernel
+
+-- setChannelAmplitude_neq / setSpec_neq: no amplitude was set
+example : Dict.get? (d23_seq 10).awgspecs (keyOf (.int 1) "amplitude") ≠ some (.val (.num 1)) := by
+  decide +kernel
+
+-- setSR_neq: another sample rate
+example : Dict.get? (d23_seq 10).awgspecs "SR" ≠ some (.val (.num 20)) := by decide +kernel
+
+-- entry_eq_symm / seq_eq_symm / seq_eq_desc: the two orders of `two_pos`
+/-- non-vacuity: the two-position example sequences are well-formed -/
+theorem two_pos_wf (o : Bool) : SeqWF (two_pos o) := by
+  cases o
+  all_goals
+    refine ⟨by simp [Dict.WF, Dict.keys, two_pos], by simp [Dict.WF, Dict.keys, two_pos],
+      by simp [Dict.WF, Dict.keys, two_pos], ?_⟩
+    intro en hen
+    simp only [two_pos, Dict.vals, List.map_cons, List.map_nil, List.mem_cons, List.not_mem_nil, or_false,
+      or_self, Bool.false_eq_true, if_false, if_true] at hen
+    subst hen
+    show Dict.WF _
+    simp [Dict.WF, Dict.keys, order_el]
+
+example : (two_pos false).beq (two_pos true) = true :=
+  seq_eq_symm _ _ (two_pos_wf true) (two_pos_wf false) (by decide +kernel)
+
+example : ExRel J.DictEq (two_pos true).toDesc (two_pos false).toDesc :=
+  seq_eq_desc _ _ (two_pos_wf true) (two_pos_wf false) (by decide +kernel)
+
+example : (two_pos true).toDesc.toOption.isSome = true := by decide +kernel
+
+/-! ### element-level `changeArg` / `changeDuration` -/
+
+/-- **`Element.changeArg` / `Element.changeDuration`** (both are `withBP`): if the call changes the
+    channel's blueprint into an unequal one — by `changeArg_op_neq`, `changeDuration_neq` — the
+    element becomes unequal to what it was -/
+theorem withBP_neq (e : Element) (hwf : Dict.WF e.chans) (ch : Chan) (f : BP → Res BP) (b : BP)
+    (fl : Option (List Nat)) (hget : Dict.get? e.chans ch = some ⟨.bp b, fl⟩)
+    (hne : (f b).st.beq b = false) : (e.withBP ch f).st.beq e = false := by
+  unfold Element.withBP
+  rw [hget]
+  simp only
+  exact el_bp_neq _ e (Dict.wf_upsert hwf _ _) ch (f b).st b fl fl (Dict.get?_upsert_self _ _ _) hget hne
+
+/-- … instantiated: an accepted `Element.changeDuration` that changes a duration -/
+theorem el_changeDuration_neq (e : Element) (hwf : Dict.WF e.chans) (ch : Chan) (b : BP) (fl : Option (List Nat))
+    (hget : Dict.get? e.chans ch = some ⟨.bp b, fl⟩) (name : String) (d : Rat) (all : Bool)
+    (hacc : (b.changeDuration name (.num d) all).err = none)
+    (hdiff : ∃ s ∈ b.segs, (b.targets name all).2.contains s.name = true ∧ s.dur ≠ .num d) :
+    (e.changeDuration ch name (.num d) all).st.beq e = false :=
+  withBP_neq e hwf ch _ b fl hget (changeDuration_neq b name d all hacc hdiff)
+
+/-- … instantiated: an accepted `Element.changeArg` that changes an argument -/
+theorem el_changeArg_neq (e : Element) (hwf : Dict.WF e.chans) (ch : Chan) (b : BP) (fl : Option (List Nat))
+    (hget : Dict.get? e.chans ch = some ⟨.bp b, fl⟩) (name : String) (arg value : Val) (all : Bool)
+    (hacc : (b.changeArg name arg value all).err = none)
+    (hdiff : ∃ nm ∈ (b.targets name all).2, ∃ i seg k, b.indexOf? nm = some i ∧ b.segs[i]? = some seg ∧
+      argIndex seg arg = .ok k ∧ seg.args[k]? ≠ some value) :
+    (e.changeArg ch name arg value all).st.beq e = false :=
+  withBP_neq e hwf ch _ b fl hget (changeArg_op_neq b name arg value all hacc hdiff)
+
+-- non-vacuity: channel 1 of `order_el 1 2` holds the one-ramp blueprint
+example : Dict.get? (order_el 1 2).chans (.int 1) = some ⟨.bp (d23_bp 10), none⟩ := by decide +kernel
+example : ((order_el 1 2).changeDuration (.int 1) "ramp" (.num 2) false).st.beq (order_el 1 2) = false := by
+  decide +kernel
 
 end BB.C20
